@@ -455,6 +455,10 @@ void carquet_bit_writer_write_bits(carquet_bit_writer_t* writer,
     if (num_bits > 32) num_bits = 32;
 
     uint32_t mask = num_bits == 32 ? ~0U : (1U << num_bits) - 1;
+    /* Up to 55 bits may be pending: make room so the new bits fit the 64-bit accumulator */
+    if (writer->buffer_bits + num_bits > 64) {
+        flush_buffer(writer);
+    }
     writer->buffer |= (uint64_t)(value & mask) << writer->buffer_bits;
     writer->buffer_bits += num_bits;
 
